@@ -1,7 +1,6 @@
 //@ variant: hit HIT=1 NC=8 X=-DXV_ATR_PLAIN
 //@ variant: miss HIT=0 NC=3 X=-DXV_ATR_PLAIN
 //@ variant: anytype HIT=0 NC=3 X=-DXV_ATR_ANY_TYPE
-//@ variant: strict HIT=1 NC=8 X=-DXV_ATR_STRICT
 //@ tu: libxcm/core/attr_tree.c libxcm/core/attr_node.c libxcm/core/attr_path.c
 //@ enforce: attr_tree_set_value
 //@ replace: attr_path_parse attr_path_destroy node_lookup xv_atr_setter xv_atr_getter
